@@ -11,9 +11,9 @@ func shrinkPlan(ck *Check, plan *Plan, prop string, viol *Violation) (*Plan, *Vi
 	best := plan.clone()
 	bestViol := *viol
 	runs := 0
-	deadline := time.Now().Add(20 * time.Second)
+	deadline := time.Now().Add(4 * time.Second)
 	try := func(cand *Plan) bool {
-		if runs >= 400 || time.Now().After(deadline) {
+		if runs >= 250 || time.Now().After(deadline) {
 			return false
 		}
 		runs++
